@@ -157,6 +157,23 @@ def gen_case(r, pid=None):
                     marked["%d,%d" % (i, a)] = marked["%d,%d" % (src, a)]
             elif r.random() < 0.5:
                 marked["%d,%d" % (i, a)] = r.choice([0, 1, 7, -3, 50])
+    for j in range(ncomp):
+        i0 = comps[j].get("derives_from")
+        if i0 is not None and comps[j].get("same_as") is None:
+            # the even attributes of a derived component class are inherited from the parent component's class
+            for a in range(0, nattr, 2):
+                if "%d,%d" % (i0, a) in marked:
+                    marked["%d,%d" % (j, a)] = marked["%d,%d" % (i0, a)]
+                else:
+                    marked.pop("%d,%d" % (j, a), None)
+    for j in range(ncomp):
+        src = comps[j].get("same_as")
+        if src is not None:
+            for a in range(nattr):
+                if "%d,%d" % (src, a) in marked:
+                    marked["%d,%d" % (j, a)] = marked["%d,%d" % (src, a)]
+                else:
+                    marked.pop("%d,%d" % (j, a), None)
     fms = r.random() < 0.7
     comp_root = ncomp >= 2 and r.random() < 0.35
     # ticks
